@@ -517,7 +517,7 @@ static int run_c02(Ctx & cx, const Args & a)
   auto pts = c02_points_quick();
   // the shard/stratification decision is a pure function of (seed, point index)
   size_t idx = 0, taken = 0;
-  // stratified: every isotope at level 0 with a quarter of its modes, highest level with a third, 1/11 of the rest - and, so that no
+  // stratified: every isotope at level 0 with ALL its modes, highest level with a third, 1/11 of the rest - and, so that no
   // daughter-level cascade goes unvisited, for EVERY (isotope, level) the point with the smallest hash
   std::map<std::pair<std::string, int>, std::pair<uint64_t, size_t>> rep_of;
   { size_t i = 0; for (auto & p : pts) { uint64_t h = mix(seed ^ 0x5eed, i); auto key = std::make_pair(p.name, p.level); auto it = rep_of.find(key); if (it == rep_of.end() || h < it->second.first) rep_of[key] = {h, i}; i++; } }
@@ -528,7 +528,9 @@ static int run_c02(Ctx & cx, const Args & a)
     else {
       uint64_t h = mix(seed, my);
       int maxl = catalog::dbd_max_level(p.name);
-      take = (p.level == 0 && (h % 4) == 0) || (p.level == maxl && (h % 3) == 0) || (h % 11) == 0 || rep_of[std::make_pair(p.name, p.level)].second == my;
+      // every mode of every isotope at the ground-state level (the primary-lepton code differs per mode and per sign of the process),
+      // a third of the cells of the highest level, 1/11 of the rest, and the representative of every (isotope, level)
+      take = p.level == 0 || (p.level == maxl && (h % 3) == 0) || (h % 11) == 0 || rep_of[std::make_pair(p.name, p.level)].second == my;
     }
     if (!take) continue;
     if ((taken++ % nsh) != (size_t)shard) continue;
